@@ -188,6 +188,18 @@ impl RoutingThread {
                 self.process_peer_services(services, peer_index).await;
             }
             Message::GhostChain(chain) => {
+                {
+                    // a ghost chain is the answer to the request only lite nodes send: a full
+                    // node builds its chain index from validated blocks alone
+                    let configs = self.config_lock.read().await;
+                    if !(configs.is_browser() || configs.is_spv_mode()) {
+                        warn!(
+                            "ignoring ghost chain from peer : {:?} since we are a full node",
+                            peer_index
+                        );
+                        return;
+                    }
+                }
                 self.process_ghost_chain(chain, peer_index).await;
             }
             Message::GhostChainRequest(block_id, block_hash, fork_id) => {
